@@ -14,6 +14,10 @@ CLAIMED = {
          "7.C04", "Coq proof of the laws on the model + direct law oracles on the implementation"),
  "C12": ("Coq theorems: soundness of both scanners w.r.t. the PEP 440 grammar (accepted => rendering of a well-formed parse tree; operator/form table), ASCII-only, completeness on greedy-normal-form spellings; the acceptance languages are compared with the implementation over bounded-exhaustive strings on class-representative alphabets and generated/mutated inputs; the remaining completeness half is tested, not proved (stated in the file)",
          "7.C12", "Coq proof (scanner soundness / gnf-completeness) + bounded-exhaustive correspondence"),
+ "C13": ("Coq theorems for all strings: canonicalize_name is the run-collapse + lower-case fold (characterisation, shape, idempotence, same canonical form iff equal after folding), validate=True accepts exactly the core-metadata name language, is_normalized_name iff valid and fixed point; tied to the code by bounded-exhaustive and structured name streams and per-code-point sweeps of the regex/str.lower tables",
+         "7.C13", "Coq proof (string induction) + extracted-model correspondence incl. exhaustive sweeps"),
+ "C14": ("Coq theorems: wheel/sdist encode-decode round trips (canonical name, identical version, build tuple, cartesian product of tags), parse_tag(str(t)) = {t}, Tag case-insensitivity, each rejection class gives the documented error and nothing else; tied to the code by encode/decode correspondence on generated components and structural damage",
+         "7.C14", "Coq proof (round trip / rejection lemmas) + extracted-model correspondence"),
 }
 NA_REASON = "check not built yet in this revision (planned, see DESIGN.md section 7); nothing is claimed"
 checks, na = [], []
